@@ -16,7 +16,7 @@ from . import c01
 
 PROP = "C11"
 SHADOW = False
-EXPECT_PROBES = ["accounting-clean", "ed-provenance", "int-range", "sweep:randrange", "sweep:random_scalar",
+EXPECT_PROBES = ["sweep:deep-redraw", "accounting-clean", "ed-provenance", "int-range", "sweep:randrange", "sweep:random_scalar",
                  "sweep:start", "sweep:depth2", "drive:boundary", "drive:redraws"]
 RULE = ("one evaluation = one simulated run: a session (exchange with crash/recover, entropy accounting over the "
         "history), a drive of the sampler with an adversarial stream, or one seam sweep (ALL first-round answers of "
@@ -33,6 +33,13 @@ def generate(rng, tier="quick"):
         g = scn["config"]["psets"][0]["group"]
         for nd in scn["config"]["nodes"]:
             nd["entropy"] = gen.gen_entropy(rng, g, 0.6)
+        if rng.random() < 0.25:
+            # an application bug calls start() again: refused, and must not touch the entropy source
+            k = rng.randrange(2)
+            pos = [i for i, st in enumerate(scn["steps"]) if st["op"] == "start" and st["n"] == k]
+            if pos:
+                at = rng.randrange(pos[0] + 1, len(scn["steps"]) + 1)
+                scn["steps"].insert(at, {"op": "start", "n": k})
         return scn
     if r < 0.60:
         # direct drive
@@ -72,6 +79,8 @@ def generate(rng, tier="quick"):
         cfg = {"psets": [ps], "nodes": []}
     if depth2:
         step["depth2"] = rng.randrange(1 << 30)
+    if rng.random() < 0.15 and fn != "start":
+        step["deep"] = rng.choice([2, 3, 10, 31, 32, 33, 63, 64, 65, 100, 127, 128, 129, 200, 255, 256, 257, 300])
     return {"kind": "sweep", "config": cfg, "steps": [step]}
 
 
@@ -239,6 +248,36 @@ def execute(scn):
         w.flag("low-acceptance", "%s over [%d,%d): only %d of %d first-round answers are accepted (expected draws > 2)"
                % (name, lo, hi, acc, space), fn=name)
     w.log("sweep", "ok", sim.dg(json.dumps(sorted(tally.items())[:50])), width=width, accepted=acc, space=space)
+    # the sampler is memoryless: after ANY number of rejected answers the next round must be as
+    # uniform as the first (1-byte answer spaces only: the tally costs 256 * (k+1) calls)
+    if "deep" in step and rejected and n == 1:
+        k = step["deep"]
+        pre = [rejected[i % len(rejected)] for i in range(k)]
+        t3, acc3 = {}, 0
+        sizes_ok = True
+        for s3 in range(space):
+            e = Scripted(pre + [s3], s3, stop=True)
+            try:
+                v = f(e)
+            except SweepStop:
+                continue
+            if len(e.sizes) != k + 1:
+                continue
+            if e.sizes[-1] != n:
+                sizes_ok = False
+            if not (lo <= v < hi):
+                w.flag("out-of-range", "%s returned %d outside [%d,%d) after %d re-draws" % (name, v, lo, hi, k), fn=name)
+                return w
+            t3[v] = t3.get(v, 0) + 1
+            acc3 += 1
+        w.tick += space
+        w.probe("sweep:deep-redraw")
+        if acc3 and (len(t3) != width or len(set(t3.values())) != 1 or acc3 != acc):
+            w.flag("biased", "%s over [%d,%d): after %d rejected answers the next draw is not the same uniform draw "
+                   "(%d of %d values reachable, multiplicities %s, %d accepted vs %d in round 1%s)"
+                   % (name, lo, hi, k, len(t3), width, sorted(set(t3.values()))[:4], acc3, acc,
+                      "" if sizes_ok else ", request size changed"), fn=name, round="deep")
+        w.log("sweep3", "ok", sim.dg(json.dumps(sorted(t3.items())[:50])), k=k)
     # second round under sampled rejected prefixes: the re-draw must be as uniform as the first
     if "depth2" in step and rejected:
         import random
@@ -285,6 +324,20 @@ class SessionOracle(Hooks):
             if api != "start" and seam:
                 clean = False
                 self.flag(w, "entropy-outside-start", "%s() requested %d byte(s) from entropy_f" % (api, seam), api=api)
+        for e in w.events:
+            if e["op"] == "start" and e["out"] == "exc:OnlyCallStartOnce":
+                # find the accounting entry of this very call: events and acct are appended in step order
+                pass
+        starts = {}
+        for (ni, api, seam, trip) in w.acct:
+            if api == "start":
+                starts.setdefault(ni, []).append(seam)
+        for ni, seams in starts.items():
+            refused = [e for e in w.events if e["op"] == "start" and e["n"] == ni and e["out"] == "exc:OnlyCallStartOnce"]
+            if refused and w.nodes[ni].crashes == 0 and len(seams) >= 2 and any(x for x in seams[1:]):
+                clean = False
+                self.flag(w, "entropy-outside-start", "a refused second start() requested %s byte(s) from entropy_f"
+                          % seams[1:], api="start-refused")
         for e in w.events:
             if e["op"] == "recover" and e["out"] == "exc:NotImplementedError":
                 clean = False
